@@ -280,8 +280,28 @@ theorem min_level_spec (lambda scale nParties : Nat) (moduli : List Nat) (L : Na
 /-- three parties, 40-bit masks: a 41.x-bit first prime is NOT enough (⌈log2 3⌉ = 2), level 1 is -/
 example : minLevelForRefresh 30 1024 3 [2199023255579, 1073741827] = some (1, 40) := by decide +kernel
 
+/-- **centred masks do not wrap.**  If every mask satisfies `|M_i| ≤ H` (`H = 2^(logBound−1)` for the
+    documented centred range `[−2^(logBound−1), 2^(logBound−1))`), the plaintext coefficient `|m| ≤ B` and
+    `2·(n·H + B) < Q`, then the masked plaintext `m − Σ M_i` is its own centred representative modulo `Q`
+    (`2·|m − Σ M_i| < Q`): EncToShare at that level recovers it without wrap-around.  With `min_level_spec`
+    (`n·2^logBound ≤ Q_minLevel`) the condition holds at the minimum level as soon as the slack
+    `Q_minLevel − n·2^logBound` exceeds `2B`; it is the predicate computed by `noWrapAtMinLevel`. -/
+theorem centred_masks_no_wrap (Q H B m : Int) (masks : List Int)
+    (hM : ∀ M ∈ masks, |M| ≤ H) (hm : |m| ≤ B) (hQ : 2 * (masks.length * H + B) < Q) :
+    2 * |m - masks.sum| < Q := by
+  have h1 := abs_sum_le_of_abs_le H masks hM
+  have h2 : |m - masks.sum| ≤ |m| + |masks.sum| := abs_sub _ _
+  linarith
+
+/-- masks sampled in `[0, 2^logBound)` (not centred) DO wrap at a minimum level that is tight:
+    4 parties, 3-bit masks, `Q = 33 ≥ 4·2^3`, message 1: `1 − (7+7+7+7) = −27`, and `2·27 > 33`. -/
+example : ¬ (2 * |(1 : Int) - [7, 7, 7, 7].sum| < 33) := by decide
+
+example : noWrapAtMinLevel 2 2 4 [37, 41] 1 = some (0, 3, true) := by decide +kernel
+
 end Lattigo.Props.C16
 
+#print axioms Lattigo.Props.C16.centred_masks_no_wrap
 #print axioms Lattigo.Props.C16.min_level_spec
 #print axioms Lattigo.Props.C16.cks_collective
 #print axioms Lattigo.Props.C16.cks_phase
